@@ -16,12 +16,12 @@ package channel
 
 // Send refuses, writing nothing, a record containing the split byte; otherwise
 // it performs exactly one Write of msg followed by the split byte.
-// (append(msg, split) may use msg's spare capacity: the byte just past the
-// record in the caller's backing array can be overwritten; the record itself
-// is not - see the last clause.)
+// Nothing of the caller's memory is written - not the record and not the
+// spare capacity behind it, which may hold the caller's next record (adjacent
+// sub-slices of one buffer): the frame has no mem(msg).
 //@ func (split).Send
-//@   requires c.wc != nil
-//@   modifies writes(c.wc), wrLen(c.wc), wrData(c.wc), mem(msg)
+//@   requires c.wc != nil && len(msg) < 281474976710656
+//@   modifies writes(c.wc), wrLen(c.wc), wrData(c.wc)
 //@   ensures[C11:record-untouched] forall(j int, 0 <= j && j < len(msg) ==> msg[j] == old(msg[j]))
 //@   ensures[C11:refuse] exists(i int, 0 <= i && i < len(msg) && msg[i] == c.split) ==> result != nil && writes(c.wc) == old(writes(c.wc))
 //@   ensures[C11:one-write] forall(i int, 0 <= i && i < len(msg) ==> msg[i] != c.split) ==> writes(c.wc) == old(writes(c.wc)) + 1 && wrLen(c.wc) == len(msg) + 1
